@@ -52,6 +52,7 @@ Init ==
                  \cup {<<"evalpt", m, 0>> : m \in 1..(nl - 1)}
                  \cup {<<"lastcoef", j, 0>> : j \in 1..Len(last)}
                  \cup {<<"lastlen", 1, 0>>, <<"lastlen", 0, 0>>}
+                 \cup (IF \E j \in 1..Len(last) : last[j] # 0 THEN {<<"lastzero", 0, 0>>} ELSE {})   \* an all-zero last layer for a non-zero function
     IN
     \E x \in (IF kd = "high" THEN {<<"none", 0, 0>>} ELSE sites) :
       /\ (x[1] = "leaf" => x[3] <= Len(wit[x[2]]))
@@ -61,6 +62,7 @@ Init ==
       /\ commitOK = [m \in 1..(nl - 1) |-> ~(x[1] \in {"auth", "commit"} /\ x[2] = m)]
       /\ evalpts = [m \in 1..(nl - 1) |-> IF x[1] = "evalpt" /\ x[2] = m THEN SAdd(ev[m], 1) ELSE ev[m]]
       /\ lastcoefs = CASE x[1] = "lastcoef" -> [last EXCEPT ![x[2]] = SAdd(@, 1)]
+                       [] x[1] = "lastzero" -> [j \in 1..Len(last) |-> 0]
                        [] x[1] = "lastlen" /\ x[2] = 1 -> Append(last, 0)
                        [] x[1] = "lastlen" /\ x[2] = 0 -> SubSeq(last, 1, Len(last) - 1)
                        [] OTHER -> last
@@ -82,7 +84,9 @@ Complete == (FriDone /\ Honest) => verdict = "accept"
 (* C07: every single-position corruption is rejected.  A changed evaluation point is detected unless the *)
 (* two fold values coincide on every touched coset (impossible to exclude in a 257-element field; the      *)
 (* replay at the real field expects rejection).                                                            *)
-Binding == (FriDone /\ kind # "high" /\ ~Honest /\ corrupt[1] # "evalpt") => verdict # "accept"
+\* Likewise an all-zero last layer survives in the 257-element field when every queried folded value happens to be 0.
+Binding == (FriDone /\ kind # "high" /\ ~Honest /\ corrupt[1] \notin {"evalpt", "lastzero"}) => verdict # "accept"
+LastZeroOnlyByCoincidence == (FriDone /\ corrupt[1] = "lastzero" /\ verdict = "accept") => \A t \in 1..Len(qs) : qs[t][2] = 0
 \* where the rejection comes from: a changed committed value, node or root is caught by the layer decommitment
 \* itself, not only (probabilistically) by the fold chain
 CaughtByDecommit == (FriDone /\ kind # "high" /\ corrupt[1] \in {"input", "leaf", "auth", "commit"}) => verdict = "reject-decommit"
